@@ -108,6 +108,29 @@ impl Prop for IndexLarge {
         IndexAddresses::check(c, ctx)
     }
 }
+pub struct IndexBufio;
+impl Prop for IndexBufio {
+    type Case = FileCase;
+    fn name() -> &'static str {
+        "index-bufio"
+    }
+    fn rule() -> &'static str {
+        "proptest: the index oracle on path-created pairs of 2500-7000 (one in eight: > 65536) small records of varying sizes, read back          by path with and without the .shx: the files span many 8 KiB BufReader / BufWriter buffers, so record headers and index          entries fall on every alignment relative to the buffer edges; non-trivial: every case"
+    }
+    fn check(c: &FileCase, ctx: &mut Ctx) -> Result<(), Fail> {
+        ctx.nontrivial();
+        IndexAddresses::check(c, ctx)
+    }
+}
+impl RandomProp for IndexBufio {
+    fn strategy(_env: &Env) -> BoxedStrategy<FileCase> {
+        bufio_file_case()
+    }
+    fn cases(env: &Env) -> u64 {
+        env.n(16, 160)
+    }
+}
+
 impl RandomProp for IndexLarge {
     fn strategy(_env: &Env) -> BoxedStrategy<FileCase> {
         large_file_case(true)
@@ -346,6 +369,28 @@ fn index_k<K: Kind>(c: &FileCase, ctx: &mut Ctx) -> Result<(), Fail> {
     let eq = |e: &Geom, g: &Geom| if e == g { Ok(()) } else { Err("differs from the plain iteration item".to_string()) };
     adaptor_routes("index/shx", || open_mem(&shp, Some(&shx[..])), &seq, eq).map_err(|(k, m)| Fail::new(if k == "shape-differs" { "index-vs-sequential" } else { &k }, m))?;
     adaptor_routes("index/noshx", || open_mem(&shp, None), &seq, eq).map_err(|(k, m)| Fail::new(if k == "shape-differs" { "index-vs-sequential" } else { &k }, m))?;
+    if c.disk {
+        // the files on disk read by path (BufReader<File>): sequential iteration with the .shx beside the .shp, and on a
+        // copy of the .shp alone, yields the same n shapes
+        let p = scratch_shp("c04", shapes.len() + c.mid_fins as usize);
+        let alone = scratch_dir().join("c04-alone.shp");
+        std::fs::write(&p, &shp).map_err(|e| Fail::new("harness/disk-io", e.to_string()))?;
+        std::fs::write(p.with_extension("shx"), &shx).map_err(|e| Fail::new("harness/disk-io", e.to_string()))?;
+        std::fs::write(&alone, &shp).map_err(|e| Fail::new("harness/disk-io", e.to_string()))?;
+        let _ = std::fs::remove_file(alone.with_extension("shx"));
+        for (what, path) in [("by path with the .shx", &p), ("by path, .shp alone", &alone)] {
+            let mut r = shapefile::ShapeReader::from_path(path).map_err(|e| Fail::new("open-error", format!("{}: {}", what, err_str(&e))))?;
+            let (items, over) = drain_capped(r.iter_shapes(), n + 2);
+            ensure!(!over, "count", "iteration {} yields more than {} shapes", what, n);
+            ensure!(items.len() == n, "count", "iteration {} yields {} of {} shapes", what, items.len(), n);
+            for (i, it) in items.iter().enumerate() {
+                match it {
+                    Ok(s) => ensure!(view_shape(s) == seq[i], "index-vs-sequential", "shape {} read {} differs from the in-memory iteration", i, what),
+                    Err(e) => fail!("read-error", "iteration {}: item {}: {}", what, i, err_str(e)),
+                }
+            }
+        }
+    }
     if n >= 3 {
         let mut r = open(true)?;
         let mut it = r.iter_shapes();
